@@ -24,6 +24,9 @@ pub enum Op {
     Sync,
     /// a read between writes (reads must not disturb later appends)
     Retrieve(u64),
+    /// the next fsync of one of the freezer's files fails once with EIO (not a crash: the process
+    /// lives on; an operation that reports the error has not happened, and can be repeated)
+    FailNextSync,
 }
 
 #[derive(Clone, Debug, Serialize, Deserialize, PartialEq, Eq, Hash)]
@@ -114,6 +117,8 @@ struct Outcome {
     /// data files the head has left behind since the last sync point whose last OBSERVED fsync
     /// covers less than their final size: (file name, bytes covered)
     left_behind_unsynced: Vec<(String, u64)>,
+    /// an injected fsync failure is still pending (hidden state: part of the fingerprint)
+    armed: bool,
 }
 
 /// Replays `hist` on a fresh directory with the real FreezerFiles; checks every return value
@@ -141,6 +146,7 @@ fn replay_files(dir: &Path, compression: bool, hist: &[Op]) -> Outcome {
                 pending_read: None,
                 mem: Default::default(),
                 left_behind_unsynced: vec![],
+                armed: false,
             };
         }
     };
@@ -170,14 +176,28 @@ fn replay_files(dir: &Path, compression: bool, hist: &[Op]) -> Outcome {
     let mut at_mark: Disk = read_disk(dir);
     for (step, op) in hist.iter().enumerate() {
         match *op {
+            Op::FailNextSync => {
+                fsync_watch::fail_next(dir);
+            }
             Op::Append(size) => {
                 let no = reference.len() as u64 + 1;
                 let data = item_bytes(no, size);
-                if let Err(e) = files.append(no, &data) {
-                    problem.get_or_insert(("crashfree-append".into(), format!("step {step}: append({no}) failed: {e}")));
-                    break;
+                let was_armed = fsync_watch::armed(dir);
+                match std::panic::catch_unwind(std::panic::AssertUnwindSafe(|| files.append(no, &data))) {
+                    Ok(Ok(())) => reference.push(data),
+                    Ok(Err(e)) => {
+                        if was_armed && !fsync_watch::armed(dir) {
+                            // the injected fsync failure surfaced: the item was not appended
+                        } else {
+                            problem.get_or_insert(("crashfree-append".into(), format!("step {step}: append({no}) failed: {e}")));
+                            break;
+                        }
+                    }
+                    Err(_) => {
+                        problem.get_or_insert(("crashfree-panic".into(), format!("step {step}: append({no}) panicked")));
+                        break;
+                    }
                 }
-                reference.push(data);
             }
             Op::Truncate(k) => {
                 if let Err(e) = files.truncate(k) {
@@ -192,7 +212,12 @@ fn replay_files(dir: &Path, compression: bool, hist: &[Op]) -> Outcome {
                 fsync_watch::forget(dir);
             }
             Op::Sync => {
+                let was_armed = fsync_watch::armed(dir);
                 if let Err(e) = files.sync_all() {
+                    if was_armed && !fsync_watch::armed(dir) {
+                        // the injected failure: nothing was promised durable by this call
+                        continue;
+                    }
                     problem.get_or_insert(("crashfree-sync".into(), format!("step {step}: sync failed: {e}")));
                     break;
                 }
@@ -213,11 +238,17 @@ fn replay_files(dir: &Path, compression: bool, hist: &[Op]) -> Outcome {
             }
             Op::Reopen => {
                 drop(files);
-                files = match open() {
+                let was_armed = fsync_watch::armed(dir);
+                let mut opened = open();
+                if opened.is_err() && was_armed && !fsync_watch::armed(dir) {
+                    // the injected fsync failure surfaced in the open path: the open is repeated
+                    opened = open();
+                }
+                files = match opened {
                     Ok(f) => f,
                     Err(e) => {
                         problem.get_or_insert(("crashfree-reopen".into(), format!("step {step}: reopen failed: {e}")));
-                        return Outcome { disk: read_disk(dir), mark, reference, problem, last_is_append: false, pending_read: None, mem: Default::default(), left_behind_unsynced: vec![] };
+                        return Outcome { disk: read_disk(dir), mark, reference, problem, last_is_append: false, pending_read: None, mem: Default::default(), left_behind_unsynced: vec![], armed: false };
                     }
                 };
                 mark = mark_of(&read_disk(dir));
@@ -232,10 +263,13 @@ fn replay_files(dir: &Path, compression: bool, hist: &[Op]) -> Outcome {
             break;
         }
         for (i, want) in reference.iter().enumerate() {
-            match files.retrieve(i as u64 + 1) {
-                Ok(Some(got)) if &got == want => {}
-                other => {
+            match std::panic::catch_unwind(std::panic::AssertUnwindSafe(|| files.retrieve(i as u64 + 1))) {
+                Ok(Ok(Some(got))) if &got == want => {}
+                Ok(other) => {
                     problem.get_or_insert(("crashfree-retrieve".into(), format!("step {step} {op:?}: retrieve({}) = {:?}, want {} bytes", i + 1, other.map(|o| o.map(|b| hex(&b))), want.len())));
+                }
+                Err(_) => {
+                    problem.get_or_insert(("crashfree-panic".into(), format!("step {step} {op:?}: retrieve({}) panicked", i + 1)));
                 }
             }
         }
@@ -256,6 +290,8 @@ fn replay_files(dir: &Path, compression: bool, hist: &[Op]) -> Outcome {
     }
     let mem = files.verif_state();
     drop(files);
+    let armed = fsync_watch::armed(dir);
+    fsync_watch::disarm(dir);
     let disk = read_disk(dir);
     // data files that are no longer the head: what does their last fsync cover?
     let observed = fsync_watch::synced_under(dir);
@@ -271,6 +307,7 @@ fn replay_files(dir: &Path, compression: bool, hist: &[Op]) -> Outcome {
         }
     }
     Outcome {
+        armed,
         left_behind_unsynced,
         mem,
         disk,
@@ -457,6 +494,9 @@ fn alphabet(tier: Tier, n_items: usize) -> Vec<Op> {
     let mut ops: Vec<Op> = sizes.iter().map(|s| Op::Append(*s)).collect();
     ops.push(Op::Sync);
     ops.push(Op::Reopen);
+    if n_items >= 1 {
+        ops.push(Op::FailNextSync);
+    }
     for k in 1..n_items as u64 {
         ops.push(Op::Truncate(k));
     }
@@ -480,7 +520,7 @@ fn explore_one(ctx: &Ctx, compression: bool, hist: Vec<Op>) -> Expanded {
     let o = replay_files(&dir.join("live"), compression, &hist);
     report.transitions += hist.len() as u64;
     report.traces += 1;
-    let state_fp = fp(&(&o.disk, &o.mark, compression, o.pending_read, &o.mem));
+    let state_fp = fp(&(&o.disk, &o.mark, compression, o.pending_read, &o.mem, o.armed));
     if let Some((kind, msg)) = &o.problem {
         if kind.starts_with("machinery/") {
             report.machinery_errors.push(msg.clone());
@@ -755,7 +795,7 @@ fn freezer_one(ctx: &Ctx, chain: &[BlockView], hist: &[FOp]) -> Report {
     // crash images of the last freeze: the tail written by it, cut everywhere
     let disk = read_disk(&dir);
     let reference: Vec<Vec<u8>> = (1..=n_ref).map(|i| chain[i as usize].data().as_slice().to_vec()).collect();
-    let o = Outcome { disk, mark, reference, problem: None, last_is_append: true, pending_read: None, mem: Default::default(), left_behind_unsynced: vec![] };
+    let o = Outcome { disk, mark, reference, problem: None, last_is_append: true, pending_read: None, mem: Default::default(), left_behind_unsynced: vec![], armed: false };
     let cuts = crash_cuts(&o);
     let crash_dir = thread_dir(ctx, "c09f").join("crash");
     for cut in &cuts {
@@ -833,7 +873,7 @@ pub fn meta(tier: Tier) -> Meta {
     Meta {
         id: "C09",
         level: "fault_enumeration",
-        rule: "BFS over all histories of {Append(size), Truncate(k), Sync, Reopen} on the real FreezerFiles (max_file_size=40, compression off and on), states deduplicated by on-disk image + last-synced marks; for every new state every crash image: head data file cut to every byte length in [synced, final] (or absent / 0..final when the head rolled over since the last sync) x INDEX cut to every byte length in [synced, final]; each image is reopened with the real repair code and judged against the reference item list. A second search starts from the state after Append(39) Append(13) Append(13) (a head file the process has rolled over to, holding two items; depth 2, thorough 4). Files the head has left behind since the last sync point are covered by what the process itself is OBSERVED to fsync (the executable interposes fsync / fdatasync and records the file size at every completed call): a left-behind file whose last observed fsync covers less than its final size is additionally cut back into the uncovered part (with the newer files and the index complete). Second family: the same through Freezer::{open,freeze,retrieve,truncate} on real packed blocks with a 700-byte file limit. A case is non-trivial iff the image is torn (at least one of the two files shorter than final); distinct = distinct (history, cut).",
+        rule: "BFS over all histories of {Append(size), Truncate(k), Sync, Reopen, Retrieve(k), FailNextSync (the next fsync of one of the freezer's files fails once with EIO; an operation that reports the error has not happened and may be repeated)} on the real FreezerFiles (max_file_size=40, compression off and on), states deduplicated by on-disk image + last-synced marks; for every new state every crash image: head data file cut to every byte length in [synced, final] (or absent / 0..final when the head rolled over since the last sync) x INDEX cut to every byte length in [synced, final]; each image is reopened with the real repair code and judged against the reference item list. A second search starts from the state after Append(39) Append(13) Append(13) (a head file the process has rolled over to, holding two items; depth 2, thorough 4). Files the head has left behind since the last sync point are covered by what the process itself is OBSERVED to fsync (the executable interposes fsync / fdatasync and records the file size at every completed call): a left-behind file whose last observed fsync covers less than its final size is additionally cut back into the uncovered part (with the newer files and the index complete). Second family: the same through Freezer::{open,freeze,retrieve,truncate} on real packed blocks with a 700-byte file limit. A case is non-trivial iff the image is torn (at least one of the two files shorter than final); distinct = distinct (history, cut).",
         assumptions: &[
             "only the head data file and INDEX are torn (as the property's quantifier states); older data files are intact",
             "truncate and reopen are treated as sync points",
